@@ -31,6 +31,9 @@ mod gossip;
 mod live;
 mod state;
 
+#[cfg(iroh_docs_verif)]
+pub use self::live::verif_hooks;
+
 /// Capacity of the channel for the [`ToLiveActor`] messages.
 const ACTOR_CHANNEL_CAP: usize = 64;
 /// Capacity for the channels for [`Engine::subscribe`].
